@@ -184,7 +184,9 @@ def run_case(case):
         zer = []
         for s in r.stochastic:
             x = np.array(params["shocks"][s], dtype=np.float64)
-            x[..., 0] = np.where(np.arange(x[..., 0].size).reshape(x[..., 0].shape) % 2 == 0, 0.0, x[..., 0])
+            # zero entry in the MIDDLE label when there are three (a zero between positive entries)
+            z = 1 if x.shape[-1] >= 3 else 0
+            x[..., z] = np.where(np.arange(x[..., z].size).reshape(x[..., z].shape) % 2 == 0, 0.0, x[..., z])
             zer.append(x / x.sum(-1, keepdims=True))
         combos.append(zer)
         for ci, combo in enumerate(combos):
